@@ -30,6 +30,19 @@ CHECKS = {
              "Known divergences are listed in known_findings.json with their extent in findings_extent/C18.json.",
         technique="TLA+ transducer spec model-checked by TLC; TLC-exported emission tables replayed into Compact/Indent/HTMLEscape/Valid",
         engine="JsonTransform", design="8/C18"),
+    "C06": dict(
+        level="exploration",
+        text="Inputs are behaviours of the JsonText specification (every byte-class string up to length 3/4, escape-catalogue string "
+             "literals with every single-byte mutation and truncation, generated texts with every prefix and a mutation per position), "
+             "nesting depths around the 10000 limit and up to 10^7, and every path string up to length 4/6; each goes to ~150 entry "
+             "point x destination combinations (Unmarshal*, Decoder incl. one-byte and failing readers, Token/More/Buffered, Valid, "
+             "Compact, Indent, HTMLEscape, CreatePath, Path.Extract/Unmarshal/Get) in crash-isolating worker processes. Oracle: no "
+             "recovered panic, no process death, no stall. TLC model-checks the window protocol (a refill always has room for its "
+             "sentinel) and the recogniser the inputs are drawn from.",
+        note="exploration: absence of crashes is observed on the enumerated inputs, not proved; trusted: Go runtime's panic/fatal "
+             "reporting, 60 s stall detector. Indent on nestings deeper than 10^5 is skipped (quadratic time by design, as in encoding/json).",
+        technique="TLA+-specified input space (JsonText) enumerated into all decoding/utility entry points under crash isolation",
+        engine="JsonText", design="8/C06"),
     "C09": dict(
         level="model_checking",
         text="StreamDecoder.tla models the refillable window (read with optional doubling, consume, in-place unescape, reset) over "
@@ -88,12 +101,13 @@ def main():
 
 NA = {}
 HOOK_COMMITS = ["cb16685"]
+FIX_COMMITS = ["3ba2124", "35e540e", "5d9c0a9", "6dfbe91"]
 ENGINES = [
     dict(name="StreamDecoder", path="specs/StreamDecoder.tla", serves_properties=["C09"],
          kind_free_text="TLA+ model of the stream window (StreamDecoder.tla + StreamIdx.tla) and trace specification StreamTrace.tla"),
     dict(name="JsonTransform", path="specs/JsonTransform.tla", serves_properties=["C18"],
          kind_free_text="TLA+ Compact/Indent transducers over JsonText; TLC invariants (idempotence, composition) and table export"),
-    dict(name="JsonText", path="specs/JsonText.tla", serves_properties=["C05", "C18"],
+    dict(name="JsonText", path="specs/JsonText.tla", serves_properties=["C05", "C06", "C09", "C18"],
          kind_free_text="TLA+ pushdown recogniser of RFC 8259 over byte classes + declarative grammar; TLC model checking and table export"),
 ]
 
